@@ -57,6 +57,7 @@ class Component:
     thorough: int = 5000
     enumerate: Optional[Callable[[str], Iterable[Any]]] = None
     max_shards: int = 32
+    fuzz_runs: int = 0  # >0: thorough tier also runs an atheris campaign of this many executions per shard (8 shards)
     rule: str = ""
 
 
